@@ -20,15 +20,6 @@ Fixpoint wf (x : obj) : bool :=
   | _ => true
   end.
 
-(* tame: every ratio has a numerator below 2^62 in magnitude.  Needed for symmetry: a bignum outside
-   int64 and a ratio are compared through DIFFERENT roundings depending on the argument order. *)
-Fixpoint tame (x : obj) : bool :=
-  match x with
-  | Rat n d => Z.abs n <? 2 ^ 62
-  | Lst xs | Vec xs => forallb tame xs
-  | Tl v => tame v
-  | _ => true
-  end.
 (* exact: no float anywhere.  Needed for transitivity: comparison with a float rounds the other side. *)
 Fixpoint nofloat (x : obj) : bool :=
   match x with
@@ -47,22 +38,32 @@ Fixpoint alpha (x : obj) : bool :=
   | Tl v => alpha v
   | _ => true
   end.
-Definition sym_guard (x : obj) : bool := wf x && tame x.
-Definition trans_guard (x : obj) : bool := wf x && tame x && nofloat x.
+(* symmetry needs nothing beyond well-formedness since repair C16-11 (before it: ratio numerators below 2^62,
+   because a bignum outside int64 and a ratio were compared through different roundings in the two orders) *)
+Definition sym_guard (x : obj) : bool := wf x.
+Definition trans_guard (x : obj) : bool := wf x && nofloat x.
 
-(* domain of the sxhash theorem: no floats or ratios (their text is strconv's), ASCII text of the classes
-   written without escapes *)
-Definition ascii_plain (c : N) : bool := ((c <? 128) && cp_plain c)%N.
-Fixpoint hash_dom (x : obj) : bool :=
+(* domain of the sxhash theorem (sxhash hashes a canonical form since repairs C16-9 / C16-10).  Text needs no
+   restriction any more.  Numbers, in two tiers selected by fl:
+   fl = false: no float anywhere; every fixnum, bignum and ratio (positive denominator);
+   fl = true:  floats too, and then every number must be a single-float value in an explicit form: an integer
+               below 2^24 in magnitude, a ratio with a power-of-two denominator and a numerator below 2^24, a float
+               whose significand is below 2^24.  There every comparison `equal` makes is exact.
+   Outside both tiers `equal` relates numbers through roundings and is not transitive (the float findings); a
+   fixnum beyond 2^53 is then equal to a single-float and to a double-float that differ: no code can serve both
+   (C16_sxhash_rounding_refuted). *)
+Definition pow2b (d : Z) : bool := d =? 2 ^ Z.log2 d.
+Fixpoint hash_dom (fl : bool) (x : obj) : bool :=
   match x with
-  | Fix z => int64_ok z
-  | Rat _ _ | Flt _ _ _ => false
-  | Chr c => ascii_plain c
-  | Str s | Sym s => forallb ascii_plain s
-  | Lst xs | Vec xs => forallb hash_dom xs
-  | Tl v => hash_dom v
+  | Fix z | Big z => negb fl || (Z.abs z <? 2 ^ 24)
+  | Rat n d => (0 <? d) && (negb fl || (pow2b d && (Z.abs n <? 2 ^ 24)))
+  | Flt _ m e => fl && (Z.abs m <? 2 ^ 24)
+  | Lst xs | Vec xs => forallb (hash_dom fl) xs
+  | Tl v => hash_dom fl v
   | _ => true
   end.
+Definition hash_dom2 (x y : obj) : bool :=
+  (hash_dom false x && hash_dom false y) || (hash_dom true x && hash_dom true y).
 
 (* one memory cell holds one value: two references of the same Go type with the same data word are the
    same object (symbols compare by spelling and are exempt) *)
@@ -161,14 +162,13 @@ End PoolGuard.
    fixnums (int64), bignums outside int64 and ratios in lowest terms with a denominator above 1 (found by value
    since repair C16-5).  Excluded: floats, and the non-canonical representations (a bignum inside int64, a
    ratio n/1) that eql identifies with a fixnum while the table keeps them apart - finding
-   C16-hash-eql-numbers-are-different-keys.  The bound on ratio numerators is the one of sym_guard (finding
-   C16-eql-bignum-ratio-not-symmetric: beyond it eql may relate a ratio to a bignum). *)
+   C16-hash-eql-numbers-are-different-keys. *)
 Definition simple_key (x : obj) : bool :=
   match x with
   | Nil | Tru | Chr _ | Str _ | Sym _ | Vec _ | Lst _ => true
   | Fix z => int64_ok z
   | Big z => negb (int64_ok z)
-  | Rat n d => (0 <? d) && (Z.gcd n d =? 1) && negb (d =? 1) && (Z.abs n <? 2 ^ 62)
+  | Rat n d => (0 <? d) && (Z.gcd n d =? 1) && negb (d =? 1)
   | _ => false
   end.
 Definition simple_pool (pool : list ref) : bool := forallb (fun r => simple_key (r_obj r)) pool.
